@@ -530,8 +530,12 @@ let dispatch_case (toks : string list) : string =
       List.iteri (fun i x -> let m = methods.((k + i) mod 6) in
                    if x = handle (m, k * 100000 + i) then incr ok) rs
     done;
-    if int_of_string shut >= 0 then "M ok=* bad=0 short=0 shutdown=1 threads_left=0"
-    else Printf.sprintf "M ok=%d bad=0 short=0 shutdown=1 threads_left=0" !ok
+    (* the shutdown protocol of one loop: events arriving, shutdown() = store then notify, the poll returns *)
+    let loop_history = List.init (min (c * r) 50) (fun i -> if i mod 3 = 2 then M.SPollReturn else M.SOther)
+                       @ [ M.SStore; M.SOther; M.SNotify; M.SOther; M.SPollReturn; M.SOther ] in
+    let ended = match (M.srun loop_history).M.ph with M.Exited -> 1 | M.Waiting -> 0 in
+    if int_of_string shut >= 0 then Printf.sprintf "M ok=* bad=0 short=0 shutdown=%d threads_left=%d" ended (1 - ended)
+    else Printf.sprintf "M ok=%d bad=0 short=0 shutdown=%d threads_left=%d" !ok ended (1 - ended)
   | _ -> "BADCASE"
 
 (* ---------------- wire forms (C05, C02) ---------------- *)
